@@ -97,7 +97,7 @@ def importCellG (tb : ValueTable) (env : Value.Env) (old : Dyn) (f : Format) (ty
     match val with
     | .nil => .ok (.cell .nil f typ, none)
     | .val (.row ms) =>
-      if f == .auto || f == .hidden then .ok (.cell (.val (.row ms)) f typ, none)
+      if (f == .auto || f == .hidden) && typ == .none then .ok (.cell (.val (.row ms)) f typ, none)
       else importSwitchG tb env old f typ val
     | .val v => .ok (.cell (Cells.raw v) (Cells.format v) (Cells.rawType v), none)
     | _ => importSwitchG tb env old f typ val
